@@ -91,6 +91,20 @@ def gen(ctx):
             for j in range(u):
                 pred[0, 3 * (k + j):3 * (k + j) + 2] = plabs[k + j]   # unmatched
             cases.append((pred, ref))
+    # missed reference with a label at the top of a wide dtype while every prediction ends up with small labels
+    # (all predictions matched to small reference labels): the relabelled prediction must not narrow the reference
+    for dt, big in [("uint16", 65535), ("uint16", 300), ("uint32", 70000), ("uint32", 2 ** 24 - 1), ("uint64", 2 ** 20), ("uint16", 256)]:
+        for k in (1, 2):
+            n = 3 * (k + 2)
+            ref = np.zeros((1, n), dt)
+            pred = np.zeros((1, n), dt)
+            for i in range(k):
+                ref[0, 3 * i:3 * i + 2] = i + 1
+                pred[0, 3 * i:3 * i + 2] = rng.randint(1, 200)
+                while len(set(pred[0, ::3][:i + 1].tolist())) != i + 1:
+                    pred[0, 3 * i:3 * i + 2] = rng.randint(1, 200)
+            ref[0, 3 * k:3 * k + 2] = big               # missed reference
+            cases.append((pred, ref))
     if ctx.tier == "thorough":   # > 255 / > 65535 instances
         for dt, cnt in [("uint16", 300), ("uint32", 66000)]:
             ref = np.zeros((1, 2 * cnt + 4), dt)
